@@ -271,7 +271,7 @@ def _destroyed(B, W, case):
     checks.check_wf(B, W, W.snapshot(), "C17/destroyed continuation wf", unit=True, numeric=False)
 
 
-def _foreign(B, W, case):
+def _foreign(B, W, case, tag="C17"):
     """an envelope-level request that names a subsystem of another envelope must be rejected"""
     import numpy as np
 
@@ -299,7 +299,7 @@ def _foreign(B, W, case):
             e0.trace_out(x)
     except Exception as e:
         raised = e
-    B.require_structural(raised is not None, f"C17: Envelope.{act} with a subsystem of another envelope was not rejected")
+    B.require_structural(raised is not None, f"{tag}: Envelope.{act} with a subsystem of another envelope was not rejected")
     post = W.snapshot()
-    checks.compare_unchanged(B, W, pre, post, f"C17/foreign-member {act}")
-    checks.check_wf(B, W, post, "C17/foreign wf", unit=True)
+    checks.compare_unchanged(B, W, pre, post, f"{tag}/foreign-member {act}")
+    checks.check_wf(B, W, post, f"{tag}/foreign wf", unit=True)
